@@ -164,6 +164,7 @@ Inline(f, g) ==
   ELSE IF "a" \in DOMAIN f THEN [f EXCEPT !.a = Inline(f.a, g)]
   ELSE f
 Sb(id, ctx, sub) == [id |-> id, lhs |-> ctx, sub |-> sub, rhs |-> Inline(ctx, sub)]
+Sb2(id, ctx, sub, rhs) == [id |-> id, lhs |-> ctx, sub |-> sub, rhs |-> rhs]
 Substitutions == <<
   Sb("subst_EF_steady", Un("EF", S), SteadyF),
   Sb("subst_AGEF_attr", Un("AG", Un("EF", S)), AttrF),
@@ -172,7 +173,15 @@ Substitutions == <<
   Sb("subst_twice_attr", And(Un("EX", S), Not(Un("AX", S))), AttrF),                 \* two occurrences: a cached duplicate
   Sb("subst_neg_steady", Un("AF", Not(S)), SteadyF),
   Sb("subst_under_exists", Hy("exists", "y", "", And(Hy("jump", "y", "", S), Un("EF", Var("y")))), SteadyF),
-  Sb("subst_under_bind", Hy("bind", "y", "", Un("EX", And(Not(Var("y")), S))), AttrF)
+  Sb("subst_under_bind", Hy("bind", "y", "", Un("EX", And(Not(Var("y")), S))), AttrF),
+  \* the hole as a DOMAIN (the main use of domains: quantify over pre-computed attractors / steady states); a domain
+  \* cannot be inlined textually, the right-hand side is the README equivalence with the sub-formula in place
+  Sb2("subst_dom_exists_attr", Hy("exists", "y", "S", Hy("jump", "y", "", Un("AX", T))), AttrF,
+                               Hy("exists", "y", "", Hy("jump", "y", "", And(AttrF, Un("AX", T))))),
+  Sb2("subst_dom_bind_steady", Hy("bind", "y", "S", Un("EF", And(Var("y"), T))), SteadyF,
+                               Hy("bind", "y", "", And(SteadyF, Un("EF", And(Var("y"), T))))),
+  Sb2("subst_dom_forall_attr", Hy("forall", "y", "S", Hy("jump", "y", "", Un("EF", T))), AttrF,
+                               Hy("forall", "y", "", Hy("jump", "y", "", Bi("imp", AttrF, Un("EF", T)))))
 >>
 SubstHolds(sb, K, St, D) ==
   LET D2 == [D EXCEPT !["S"] = Sat(K, St, NoProps, D, sb.sub, <<>>)]
